@@ -73,3 +73,8 @@ Section Leibniz.
     fold_left (fun (acc : T) (ps : list nat * bool) => add acc (if snd ps then opp (prod_diag A 0 (fst ps)) else prod_diag A 0 (fst ps)))
               (perms n (seq 0 n)) zero.
 End Leibniz.
+
+(** Storage layouts. *)
+Inductive layout := Lr | Lc.
+Definition absL {T} (zero : T) (l : layout) (n : nat) (s : list T) : nat -> nat -> T :=
+  match l with Lr => abs_rows zero n s | Lc => abs_cols zero n s end.
